@@ -114,10 +114,14 @@ type modObj struct {
 	ref   *Term
 	bound []*Term // non-nil: a family of objects, one per binding satisfying guard
 	guard *Term
+	all   bool // every object of this heap may be modified
 }
 
 // excludes: reference r is not (one of) the object(s) named.
 func (m modObj) excludes(r *Term) *Term {
+	if m.all {
+		return False
+	}
 	if m.bound == nil {
 		return Not(Eq(r, m.ref))
 	}
@@ -144,7 +148,7 @@ func (x *Exec) havocHeaps(st *State, ws *writeSet, mods []modObj, frame bool) {
 			continue
 		}
 		r := Atom("r!q", SInt)
-		cond := []*Term{Le(IntLit(0), r), Le(r, before)}
+		cond := []*Term{Lt(IntLit(0), r), Le(r, before)}
 		for _, m := range mods {
 			if m.key == k.key {
 				cond = append(cond, m.excludes(r))
@@ -161,46 +165,67 @@ func (x *Exec) modObjects(env *Env, c *Contract) []modObj {
 	for _, cl := range c.Modifies {
 		for _, e := range cl.Exprs {
 			env.clause = cl
-			var bound []*Term
-			var guard *Term
-			cenv := env
-			if q, ok := e.(*SQuant); ok && q.All {
-				// modifies forall i int :: guard ==> object(i)
-				imp, ok := q.Body.(*SBinary)
-				if !ok || imp.Op != "==>" {
-					env.fail("quantified modifies must have the form  forall i T :: guard ==> object")
-				}
-				cenv = env.child()
-				for _, v := range q.Vars {
-					ty := cenv.resolveType(v.Type)
-					x.counter++
-					bt := Atom(fmt.Sprintf("%s!m%d", v.Name, x.counter), x.ti.SortOf(ty))
-					bound = append(bound, bt)
-					cenv.bound[v.Name] = TV{bt, ty}
-				}
-				guard = x.compileTV(cenv, imp.X).T
-				e = imp.Y
-			}
-			v := x.compile(cenv, e)
-			tv, ok := v.(TV)
-			if !ok {
-				unsup("modifies clause %q does not denote a heap object", cl.Text)
-			}
-			add := func(key string, ref *Term) { out = append(out, modObj{key: key, ref: ref, bound: bound, guard: guard}) }
-			switch u := tv.Ty.Underlying().(type) {
-			case *types.Slice:
-				add(x.ti.HeapKey(u.Elem()), Sel("s-ref", tv.T))
-			case *types.Pointer:
-				add(x.ti.HeapKey(elemOfPointee(u.Elem())), Sel("p-ref", tv.T))
-			case *types.Map:
-				dk, vk, lk := x.ti.MapKeys(u)
-				add(dk, tv.T)
-				add(vk, tv.T)
-				add(lk, tv.T)
-			default:
-				unsup("modifies clause %q has type %s", cl.Text, tv.Ty)
-			}
+			out = append(out, x.modObjOf(env, e)...)
 		}
+	}
+	return out
+}
+
+// modObjOf: one location expression of a modifies clause (or of unchanged()).
+func (x *Exec) modObjOf(env *Env, e SExpr) []modObj {
+	var out []modObj
+	var bound []*Term
+	var guard *Term
+	cenv := env
+	if q, ok := e.(*SQuant); ok && q.All {
+		// forall i int :: guard ==> object(i)
+		imp, ok := q.Body.(*SBinary)
+		if !ok || imp.Op != "==>" {
+			env.fail("a quantified location must have the form  forall i T :: guard ==> object")
+		}
+		cenv = env.child()
+		for _, v := range q.Vars {
+			ty := cenv.resolveType(v.Type)
+			x.counter++
+			bt := Atom(fmt.Sprintf("%s!m%d", v.Name, x.counter), x.ti.SortOf(ty))
+			bound = append(bound, bt)
+			cenv.bound[v.Name] = TV{bt, ty}
+		}
+		guard = x.compileTV(cenv, imp.X).T
+		e = imp.Y
+	}
+	if hc, ok := e.(*SCall); ok && hc.Fun == "heap" && len(hc.Args) == 1 {
+		// heap(T): any object with elements of type T
+		id, ok := hc.Args[0].(*SIdent)
+		if !ok {
+			env.fail("heap(T) needs a type name")
+		}
+		t := cenv.resolveType(id.Name)
+		if mt, ok := t.Underlying().(*types.Map); ok {
+			dk, vk, lk := x.ti.MapKeys(mt)
+			return []modObj{{key: dk, all: true}, {key: vk, all: true}, {key: lk, all: true}}
+		}
+		x.heapTerm(env.st, t)
+		return []modObj{{key: x.ti.HeapKey(t), all: true}}
+	}
+	v := x.compile(cenv, e)
+	tv, ok := v.(TV)
+	if !ok {
+		env.fail("location does not denote a heap object")
+	}
+	add := func(key string, ref *Term) { out = append(out, modObj{key: key, ref: ref, bound: bound, guard: guard}) }
+	switch u := tv.Ty.Underlying().(type) {
+	case *types.Slice:
+		add(x.ti.HeapKey(u.Elem()), Sel("s-ref", tv.T))
+	case *types.Pointer:
+		add(x.ti.HeapKey(elemOfPointee(u.Elem())), Sel("p-ref", tv.T))
+	case *types.Map:
+		dk, vk, lk := x.ti.MapKeys(u)
+		add(dk, tv.T)
+		add(vk, tv.T)
+		add(lk, tv.T)
+	default:
+		env.fail("location has type %s, which is not a heap object", tv.Ty)
 	}
 	return out
 }
